@@ -299,8 +299,13 @@ impl<'tcx> Cx<'tcx> {
             Const::Ty(_, ct) => {
                 let s = with_no_trimmed_paths!(ct.to_string());
                 let _ = write!(o, ",\"tyconst\":{}", esc(&s));
-                if let Some(v) = ct.try_to_target_usize(tcx) {
-                    let _ = write!(o, ",\"value\":{}", v);
+                if let Some(i) = ct.try_to_leaf() {
+                    let size = i.size();
+                    let bits = i.to_bits(size);
+                    let _ = write!(o, ",\"value\":{}", bits);
+                    if ty.is_signed() {
+                        let _ = write!(o, ",\"svalue\":{}", size.sign_extend(bits));
+                    }
                 }
             }
         }
